@@ -11,11 +11,36 @@ pub enum ByteStore {
     /// read-modify-write of the byte at the address: set / clear one bit
     BitSet(u8),
     BitClr(u8),
+    BitNot(u8),
+    /// BST / BIST: the bit becomes CCR.C (or its complement)
+    BitFromC { bit: u8, invert: bool },
 }
 
 fn rd(cpu: &Cpu, a: u32) -> u8 {
     cpu.bus.read(a & 0x00ff_ffff).unwrap_or(0)
 }
+impl ByteStore {
+    /// the byte that ends up in the register, given the value the read-modify-write reads and CCR at the boundary
+    pub fn resolve(&self, read: u8, ccr: u8) -> u8 {
+        match *self {
+            ByteStore::Lit(v) => v,
+            ByteStore::BitSet(b) => read | (1 << b),
+            ByteStore::BitClr(b) => read & !(1 << b),
+            ByteStore::BitNot(b) => read ^ (1 << b),
+            ByteStore::BitFromC { bit, invert } => {
+                if ((ccr & 1) != 0) != invert {
+                    read | (1 << bit)
+                } else {
+                    read & !(1 << bit)
+                }
+            }
+        }
+    }
+    pub fn is_rmw(&self) -> bool {
+        !matches!(self, ByteStore::Lit(_))
+    }
+}
+
 pub fn breg(er: &[u32; 8], r: u8) -> u8 {
     if r < 8 {
         (er[r as usize] >> 8) as u8
@@ -56,9 +81,12 @@ pub fn decode_stores(cpu: &Cpu, pc: u32, er: &[u32; 8]) -> Vec<(u32, ByteStore)>
         0x7f => {
             let a = 0xffff00 | b1 as u32;
             let bit = (rd(cpu, pc + 3) >> 4) & 7;
+            let o1 = rd(cpu, pc + 3);
             match rd(cpu, pc + 2) {
                 0x70 => vec![(a, ByteStore::BitSet(bit))],
                 0x72 => vec![(a, ByteStore::BitClr(bit))],
+                0x71 => vec![(a, ByteStore::BitNot(bit))],
+                0x67 => vec![(a, ByteStore::BitFromC { bit, invert: o1 & 0x80 != 0 })],
                 _ => vec![],
             }
         }
